@@ -141,7 +141,24 @@ def derived(check, tier, seed):
     s.done()
 
 
+def long_inputs(check, tier):
+    from bounded.common import long_values
+    s = Suite(check, "C06.long", "slicing / + / * / join contracts at run time on values with thousands of runs", bound="<= 6000 characters")
+    for label, v in long_values():
+        L = len(v.s)
+        for idx in (slice(1, L - 1), slice(L // 2, None), slice(None, 7), L - 1, -L, slice(-5, -1)):
+            s.contract_case(F.getitem, dict(self=v, index=idx), key=(label, repr(idx)))
+        s.contract_case(F.add, dict(self=v, other=v), key=(label, "add"))
+        s.contract_case(F.add, dict(self=v, other="tail"), key=(label, "addstr"))
+        s.contract_case(F.radd, dict(self=v, other="head"), key=(label, "radd"))
+    small = FmtStr(Chunk("ab", {"fg": 31}), Chunk("", {"bold": True}), Chunk("c", {}))
+    s.contract_case(F.mul, dict(self=small, other=3000), key="mul3000")
+    s.contract_case(F.join, dict(self=small, iterable=[small, "x"] * 1500), key="join3000")
+    s.done()
+
+
 def run(check, tier, seed):
+    long_inputs(check, tier)
     plain_lemma_selftest(check)
     for c in CONTRACTS:
         verify(c, tier, check)
